@@ -8,7 +8,7 @@ V = "/verif"
 args = [a for a in sys.argv[1:] if not a.startswith("--")]
 with_tests = "--tests" in sys.argv
 idx = json.load(open(V + "/selftest/index.json"))
-res = {}
+res = json.load(open(V + "/selftest/RESULTS.json")) if (args and os.path.exists(V + "/selftest/RESULTS.json")) else {}
 bad = 0
 for e in idx:
     if args and e["name"] not in args:
@@ -30,7 +30,7 @@ for e in idx:
             hit = p.returncode == 0 and "VIOLATION" not in p.stdout
         else:
             hit = p.returncode == 1 and any(e["expect"] in l for l in lines)
-        res[e["name"]] = {"property": e["property"], "exit": p.returncode, "expected_fragment": e.get("expect"), "benign": bool(e.get("benign")), "caught": hit, "first_report": [l[:200] for l in lines[:2]], "baseline_tests": tests}
+        res[e["name"] + "@" + e["property"]] = {"property": e["property"], "exit": p.returncode, "expected_fragment": e.get("expect"), "benign": bool(e.get("benign")), "caught": hit, "first_report": [l[:200] for l in lines[:2]], "baseline_tests": tests}
         print("%-28s %s exit=%d %s %s" % (e["name"], e["property"], p.returncode, ("SILENT-OK" if e.get("benign") else "CAUGHT") if hit else ("FALSE-ALARM" if e.get("benign") else "MISSED"), (tests or [""])[0][:60]))
         bad += 0 if hit else 1
     finally:
